@@ -40,26 +40,28 @@ def poll (s : Lim) (now : Nat) : Lim × Nat :=
   let r := refill s now
   if r.2 then (r.1, 0) else ({ r.1 with bucket := r.1.bucket - minBucket }, minBucket)
 
-/-- The limiter object held by `Network`: unlimited or limited. -/
+/-- The limiter object held by `Network`: unlimited or limited. An unlimited limiter limits
+nothing but keeps the bucket and refill clock of the limiter it replaced for the one that replaces
+it (`UnlimitedRateLimiter.copy_tokens`, rate_limiter.py:77-82). -/
 inductive Limiter
-  | unlimited
+  | unlimited (bucket last : Nat)
   | limited (s : Lim)
 deriving Repr, DecidableEq
 
 def Limiter.bucket : Limiter → Nat
-  | .unlimited => 0
+  | .unlimited b _ => b
   | .limited s => s.bucket
 def Limiter.last : Limiter → Nat
-  | .unlimited => 0
+  | .unlimited _ l => l
   | .limited s => s.last
 
-/-- `RateLimiter.create_limiter(kbps)` followed by `copy_tokens(old)` (network.py:355-358). -/
+/-- `RateLimiter.create_limiter(kbps)` followed by `copy_tokens(old)` (network.py:357-360). -/
 def setLimit (old : Limiter) (kbps : Nat) : Limiter :=
-  if kbps = 0 then .unlimited
+  if kbps = 0 then .unlimited old.bucket old.last
   else .limited ({ (addTokens { L := kbps * bytesPerKb, bucket := 0, last := 0 } old.bucket) with last := old.last })
 
 def Limiter.poll : Limiter → Nat → Limiter × Nat
-  | .unlimited, _ => (.unlimited, unlimitedGrant)
+  | .unlimited b l, _ => (.unlimited b l, unlimitedGrant)
   | .limited s, now => let r := Rate.poll s now; (.limited r.1, r.2)
 
 /-- Operations of the correspondence: the clock only moves forward. -/
@@ -79,7 +81,7 @@ def step (s : St) : Op → St × Nat
     let now := s.now + dt
     let r := s.lim.poll now
     ({ lim := r.1, now := now,
-       granted := s.granted + (match s.lim with | .unlimited => 0 | .limited _ => r.2) }, r.2)
+       granted := s.granted + (match s.lim with | .unlimited _ _ => 0 | .limited _ => r.2) }, r.2)
   | .setLimit k => ({ s with lim := setLimit s.lim k }, 0)
 
 /-! ### The FIFO lock of `LimitedRateLimiter.take_tokens` (rate_limiter.py: `async with self._lock`)
@@ -124,66 +126,116 @@ def LObj.arrive (o : LObj) (p now : Nat) : LObj × List Nat :=
 
 /-! ### Limiter objects as `Network` and its connections hold them
 
-`set_*_speed_limit` creates a *new* object and re-points every connection at it; a
-`take_tokens()` call that is pending (holding or awaiting the old object's lock) stays with the
-object it started on. -/
+`set_*_speed_limit` creates a *new* object, copies the tokens and the refill clock of the old one,
+makes the new object the old one's `successor` and re-points every connection at it. A replaced
+object grants nothing any more: a `take_tokens()` call that is pending on it (asleep as the lock
+holder, or waiting for its lock) is handed over to the successor when it next runs — the holder
+when its sleep ends, the waiters one after the other as the lock is passed down the queue — and
+there it queues up like a new request (rate_limiter.py: `while self.successor is None` /
+`return await self.successor.take_tokens()`). Objects form a chain in order of creation: the
+successor of object `i` is object `i+1`. -/
 
 inductive NObj
-  | unlimited
+  | unlimited (bucket last : Nat)
   | limited (o : LObj)
 deriving Repr
 
 def NObj.limiter : NObj → Limiter
-  | .unlimited => .unlimited
+  | .unlimited b l => .unlimited b l
   | .limited o => .limited o.lim
 
+/-- what became of a request -/
+inductive Fate
+  | granted (n : Nat)
+  | asleep                   -- holds the lock of the last object, bucket empty: sleeps `INTERVAL`
+  | queued                   -- waits for the lock of a limited object
+  | noObject
+deriving Repr, DecidableEq
+
+/-- poller `p` calls `take_tokens()` on the first object of the chain `objs` (the objects from some
+index on) at clock `now`. A limited object whose lock is held makes the request wait there; a
+replaced object whose lock is free passes it on to its successor at once. -/
+def enterChain (p now : Nat) : List NObj → List NObj × Fate
+  | [] => ([], .noObject)
+  | [.unlimited b l] => ([.unlimited b l], .granted unlimitedGrant)
+  | [.limited o] =>
+    match o.holder with
+    | some _ => ([.limited { o with queue := o.queue ++ [p] }], .queued)
+    | none =>
+      let r := Rate.poll o.lim now
+      if r.2 = 0 then ([.limited { o with lim := r.1, holder := some p }], .asleep)
+      else ([.limited { o with lim := r.1 }], .granted r.2)
+  | .unlimited b l :: rest =>
+    let r := enterChain p now rest
+    (.unlimited b l :: r.1, r.2)
+  | .limited o :: rest =>
+    match o.holder with
+    | some _ => (.limited { o with queue := o.queue ++ [p] } :: rest, .queued)
+    | none =>
+      let r := enterChain p now rest
+      (.limited o :: r.1, r.2)
+
+/-- the requests `ps` call `take_tokens()` one after the other at clock `now`; returns the grants -/
+def enterAll (now : Nat) : List Nat → List NObj → List NObj × List (Nat × Nat)
+  | [], objs => (objs, [])
+  | p :: ps, objs =>
+    let r := enterChain p now objs
+    let c := enterAll now ps r.1
+    match r.2 with
+    | .granted n => (c.1, (p, n) :: c.2)
+    | _ => (c.1, c.2)
+
 structure Net where
-  objs : List NObj             -- every limiter object created so far; index = identity
-  cur : Nat                    -- the object connections are pointed at
-  bound : List (Nat × Nat)     -- (poller, object its pending `take_tokens` belongs to)
+  objs : List NObj             -- every limiter object created so far; index = identity, last = current
   now : Nat
 deriving Repr
 
-def Net.objOf (n : Net) (pid : Nat) : Option Nat := (n.bound.find? (·.1 = pid)).map (·.2)
+/-- where a pending request is: (object index, is it the lock holder) -/
+def findPending (pid : Nat) : List NObj → Nat → Option (Nat × Bool)
+  | [], _ => none
+  | .unlimited _ _ :: rest, i => findPending pid rest (i + 1)
+  | .limited o :: rest, i =>
+    if o.holder = some pid then some (i, true)
+    else if o.queue.contains pid then some (i, false)
+    else findPending pid rest (i + 1)
 
-inductive PollStatus | blocked | polled | noObject
-deriving Repr, DecidableEq
+/-- the sleep of the holder of object `i` is over -/
+def wakeHolder (now : Nat) (i : Nat) (objs : List NObj) : List NObj × List (Nat × Nat) :=
+  match objs[i]? with
+  | some (.limited o) =>
+    if i + 1 = objs.length then
+      -- current object: poll; on a grant the lock goes down the queue while polls succeed
+      let r := o.holderPoll now
+      (objs.set i (.limited r.1), r.2.map (·, minBucket))
+    else
+      -- replaced object: holder and queue move on to the successor, in this order
+      let movers := o.holder.toList ++ o.queue
+      let r := enterAll now movers (objs.drop (i + 1))
+      (objs.take i ++ [.limited { o with holder := none, queue := [] }] ++ r.1, r.2)
+  | _ => (objs, [])
 
-/-- clock += dt, then poller `pid` is stepped: it starts a `take_tokens()` call on the current
-object, or — if it has one pending and is the lock holder — wakes from its sleep and polls.
-Returns the served pollers with their grants, the object touched and the status. -/
-def Net.poll (n : Net) (pid dt : Nat) : Net × List (Nat × Nat) × Nat × PollStatus :=
+/-- clock += dt, then poller `pid` is stepped: if it has no request pending it calls
+`take_tokens()` on the current (last) object; if it is asleep as a lock holder its sleep ends; if it
+waits for a lock nothing happens. Returns the grants made in this step, in order. -/
+def Net.poll (n : Net) (pid dt : Nat) : Net × List (Nat × Nat) :=
   let now := n.now + dt
-  match n.objOf pid with
-  | some i =>
-    match n.objs[i]? with
-    | some (.limited o) =>
-      if o.holder = some pid then
-        let r := o.holderPoll now
-        ({ n with objs := n.objs.set i (.limited r.1), now := now,
-                  bound := n.bound.filter (fun b => !r.2.contains b.1) },
-         r.2.map (·, Generated.Rate.minBucket), i, .polled)
-      else ({ n with now := now }, [], i, .blocked)
-    | _ => ({ n with now := now }, [], i, .noObject)
+  match findPending pid n.objs 0 with
+  | some (i, true) =>
+    let r := wakeHolder now i n.objs
+    ({ objs := r.1, now := now }, r.2)
+  | some (_, false) => ({ n with now := now }, [])
   | none =>
-    let i := n.cur
-    match n.objs[i]? with
-    | some .unlimited => ({ n with now := now }, [(pid, Generated.Rate.unlimitedGrant)], i, .polled)
-    | some (.limited o) =>
-      let r := o.arrive pid now
-      let waiting := o.holder.isSome
-      ({ n with objs := n.objs.set i (.limited r.1), now := now,
-                bound := ((pid, i) :: n.bound).filter (fun b => !r.2.contains b.1) },
-       r.2.map (·, Generated.Rate.minBucket), i, if waiting then .blocked else .polled)
-    | none => ({ n with now := now }, [], i, .noObject)
+    let k := n.objs.length - 1
+    let r := enterAll now [pid] (n.objs.drop k)
+    ({ objs := n.objs.take k ++ r.1, now := now }, r.2)
 
 def Net.setLimit (n : Net) (kbps : Nat) : Net :=
-  match n.objs[n.cur]? with
+  match n.objs.getLast? with
   | none => n
   | some o =>
     let fresh : NObj := match Rate.setLimit o.limiter kbps with
-      | .unlimited => .unlimited
+      | .unlimited b l => .unlimited b l
       | .limited l => .limited { lim := l, holder := none, queue := [] }
-    { n with objs := n.objs ++ [fresh], cur := n.objs.length }
+    { n with objs := n.objs ++ [fresh] }
 
 end AioslskVerif.Rate
